@@ -16,6 +16,12 @@ def universes(tier, seed):
         us = [(n, s) for n, s in us if not n.startswith("F3")]
         us.append(("F3", [("idx", 3, i) for i in U.F3_indices(False)]))
         us.append((f"MAA3[{seed % 64}/64]", [("idx", 3, i) for i in U.shard(U.catalogue("maa"), seed, 64)]))
+    # the same truth tables under a shifted window of names (A,B,C then B,C,D then A,C,D), alternating inside one worker
+    # process: anything memoised on names or on BDD structure alone leaks between them (wave-5 change C11-w5-1)
+    sh = []
+    for i in U.shard(U.F3_indices(False), seed, 8 if tier == "quick" else 2):
+        sh += [("idx", 3, i), ("api", ("idx", 3, i), ["B", "C", "D"]), ("api", ("idx", 3, i), ["A", "C", "D"])]
+    us.append((f"F3[{seed % (8 if tier == 'quick' else 2)}/{8 if tier == 'quick' else 2}] x name windows", sh))
     return us
 
 
